@@ -28,6 +28,8 @@ pub struct RuntimeData {
     pub(crate) object_list: Vec<NonNull<CaoLangObject>>,
     pub(crate) current_program: *const CaoCompiledProgram,
     pub(crate) open_upvalues: *mut CaoLangObject,
+    #[cfg(feature = "verif-hooks")]
+    pub verif: crate::verif_hooks::VerifVmState,
 }
 
 impl Drop for RuntimeData {
@@ -63,6 +65,8 @@ impl RuntimeData {
             memory,
             current_program: std::ptr::null(),
             open_upvalues: std::ptr::null_mut(),
+            #[cfg(feature = "verif-hooks")]
+            verif: Default::default(),
         });
         unsafe {
             let reference: &mut Self = Pin::get_mut(res.as_mut());
@@ -292,6 +296,13 @@ impl RuntimeData {
 
     pub fn gc(&mut self) {
         debug!("• GC");
+        #[cfg(feature = "verif-hooks")]
+        {
+            self.verif_on_gc();
+            self.memory
+                .verif
+                .log_marker(crate::verif_hooks::AllocEvent::GcBegin);
+        }
         // mark all roots for collection
         let mut progress_tracker = Vec::with_capacity(self.value_stack.len());
         for val in self.value_stack.iter() {
@@ -389,6 +400,10 @@ impl RuntimeData {
                 }
             }
         }
+        #[cfg(feature = "verif-hooks")]
+        self.memory
+            .verif
+            .log_marker(crate::verif_hooks::AllocEvent::GcEnd);
         debug!("✓ GC");
     }
 
